@@ -2,7 +2,7 @@
    files of the correspondence harness (DESIGN §4.2).  Nothing here is used by
    a theorem: it is the glue that runs the model on the implementation's cases. *)
 From Coq Require Import Floats.
-From Grule Require Import Base Values ArithGen.
+From Grule Require Import Base Values CmpGen.
 Open Scope Z_scope.
 
 Definition bytes_to_string (l : list Z) : string :=
